@@ -54,6 +54,9 @@ def replay_elem(r):
     for i, v in (meta.get("fixed") or {}).items():
         spec["model"] = dict(spec["model"] or {}, **{f"x{i}": str(v)})
     spec["kwargs"] = {k: v for k, v in spec["kwargs"].items() if not v.startswith("alpha")}
+    if "condition" in spec["kwargs"]:
+        # Where: the solver's value of the (pointwise) condition
+        spec["kwargs"]["condition"] = "True" if str((r.model or {}).get("cond", "True")).lower().startswith("t") else "False"
     if meta["op"].endswith(":ELU"):
         spec["kwargs"] = {"alpha": "0.7"}
     env = dict(os.environ, PYTHONPATH=os.path.join(REPO, "src") + os.pathsep + VERIF)
